@@ -2,6 +2,7 @@
 (imports ahbicht and maus; used by C13-C17)."""
 from maus.models.anwendungshandbuch import AhbMetaInformation, DeepAnwendungshandbuch
 from maus.models.edifact_components import (
+    DataElementDataType,
     DataElementFreeText,
     DataElementValuePool,
     Segment,
@@ -56,8 +57,13 @@ def _alt(ident):
 def build_element(el):
     sub = _alt(el["id"])
     if el["kind"] == "free":
+        # the optional value type of the element: an input that looks like a date-time is typed DATETIME for every second
+        # element (the type says nothing about how the format constraints are to see the input: they get what was entered)
+        kw = {}
+        if isinstance(el["input"], str) and el["input"][:2] == "20" and "T" in el["input"] and _alt(el["id"] + "t"):
+            kw["value_type"] = DataElementDataType.DATETIME
         return (UserFreeText if sub else DataElementFreeText)(discriminator=el["id"], ahb_expression=el["expr"], entered_input=el["input"],
-                                                              data_element_id="1234")
+                                                              data_element_id="1234", **kw)
     return (UserValuePool if sub else DataElementValuePool)(
         discriminator=el["id"], data_element_id="0333", entered_input=el["input"],
         value_pool=[ValuePoolEntry(qualifier=e["q"], meaning="Bedeutung " + e["q"], ahb_expression=e["expr"]) for e in el["entries"]],
@@ -77,9 +83,30 @@ def build_group(g):
         segments=[build_segment(x) for x in g["segments"]] or empty)
 
 
+def _number_lines(lines):
+    """ahb_line_index as in a flat AHB: a group's line, then the lines of its OWN segments, then its sub groups (that is how the
+    documents are written; the order validation reports in is the order of the object graph, whatever these numbers say)"""
+    n = [0]
+
+    def grp(g):
+        g.ahb_line_index = n[0]
+        n[0] += 1
+        for s in g.segments or []:
+            s.ahb_line_index = n[0]
+            n[0] += 1 + len(s.data_elements)
+        for sub in g.segment_groups or []:
+            grp(sub)
+
+    for g in lines:
+        grp(g)
+
+
 def build_ahb(groups):
     """a FRESH object graph per execution (validation mutates entered_input)"""
-    return DeepAnwendungshandbuch(meta=AhbMetaInformation(pruefidentifikator="11042"), lines=[build_group(g) for g in groups])
+    lines = [build_group(g) for g in groups]
+    if groups and _alt(groups[0]["id"] + str(len(groups[0]["segments"]) + 2 * len(groups[0]["groups"]))):
+        _number_lines(lines)
+    return DeepAnwendungshandbuch(meta=AhbMetaInformation(pruefidentifikator="11042"), lines=lines)
 
 
 def observe(results):
